@@ -207,8 +207,16 @@ def generate(r):
             ops.append(['setall', a, ['v', b] if r.random() < 0.7 else ['s', scal]])
         elif c < 0.86:
             ops.append(['abs', a])
-        elif c < 0.90:
-            ops.append(['slice', d, a, r.choice([[0, None], [1, None], [0, 1], [0, -1]])])
+        elif c < 0.92:
+            ops.append(['slice', d, a, r.choice([[0, None, 1], [1, None, 1], [0, 1, 1], [0, -1, 1], [None, None, 2], [None, None, -1], [1, None, 2]]), r.choice(['data', 'data', 'first'])])
+            if ncomp and r.random() < 0.6:
+                # use the sub-mesh right away: write through one of its components, or take a component and write through that
+                if r.random() < 0.5:
+                    ops.append(['compset', d, r.randrange(ncomp), ['s', scal]])
+                else:
+                    e = r.randrange(NV)
+                    ops.append(['comp', e, d, r.randrange(ncomp)])
+                    ops.append(['setall', e, ['s', scal]])
         elif ncomp:
             if r.random() < 0.5:
                 ops.append(['comp', d, a, r.randrange(ncomp)])
@@ -325,27 +333,32 @@ def execute(sc):
             elif k == 'slice':
                 if op[2] not in real or model[op[2]].ndim < 1:
                     continue
-                sl = slice(op[3][0], op[3][1])
-                if model[op[2]][sl].size == 0:
+                sl = slice(*op[3])
+                # 'data': along the first axis that is not the component axis (a multi-component mesh keeps all its components)
+                multi = comps and tag[op[2]] is cls and model[op[2]].ndim >= 2 and model[op[2]].shape[0] == len(comps)
+                idx = (slice(None), sl) if (len(op) > 4 and op[4] == 'data' and multi) else sl
+                if model[op[2]][idx].size == 0:
                     continue
-                real[op[1]], model[op[1]], tag[op[1]] = real[op[2]][sl], model[op[2]][sl], tag[op[2]]
+                real[op[1]], model[op[1]], tag[op[1]] = real[op[2]][idx], model[op[2]][idx], tag[op[2]]
                 res.probe('slice_view')
+                if not model[op[1]].flags['C_CONTIGUOUS']:
+                    res.probe('strided_view')
             elif k == 'comp':
-                if not comps or op[2] not in real or tag[op[2]] is not cls or model[op[2]].shape != full:
+                if not comps or op[2] not in real or tag[op[2]] is not cls or model[op[2]].ndim < 1 or model[op[2]].shape[0] != len(comps):
                     continue
                 real[op[1]], model[op[1]], tag[op[1]] = getattr(real[op[2]], comps[op[3]]), model[op[2]][op[3]], base_mesh
                 res.probe('component_view')
             elif k == 'compset':
                 a = op[1]
-                if not comps or a not in real or tag[a] is not cls or model[a].shape != full:
+                if not comps or a not in real or tag[a] is not cls or model[a].ndim < 1 or model[a].shape[0] != len(comps):
                     continue
                 rb, mb, nb = operand(op[3])
                 if rb is None:
                     continue
                 if nb is not None:
-                    if model[nb].shape == full and tag[nb] is cls:
+                    if model[nb].shape == model[a].shape and tag[nb] is cls:
                         rb, mb = getattr(rb, comps[op[2]]), mb[op[2]]
-                    elif model[nb].shape != shape:
+                    elif model[nb].shape != model[a].shape[1:]:
                         continue
                 getattr(real[a], comps[op[2]])[:] = rb
                 model[a][op[2]][:] = mb
